@@ -197,9 +197,9 @@ def prune(variant, keep):
     ds.sort(key=lambda d: os.path.getmtime(d), reverse=True)
     # other runs (other trees) may be using their binaries right now: only directories that nobody has touched for an hour go
     now = time.time()
-    for d in ds[4:]:
+    for d in ds[8:]:
         try:
-            if d != keep and now - os.path.getmtime(d) > 3600:
+            if d != keep and now - os.path.getmtime(d) > 6 * 3600:       # (a thorough run may use its binaries for more than an hour)
                 shutil.rmtree(d, ignore_errors=True)
         except OSError:
             pass
